@@ -639,6 +639,9 @@ func run(r *harness.Run) {
 	for _, n := range widths {
 		for ks := range keyShapes {
 			for o := range orders {
+				if n > 60000 && (ks > 1 || o > 1) {
+					continue // the 16-bit boundary: two key shapes x two orders (each case is megabytes of text)
+				}
 				wcases = append(wcases, wcase{n, ks, o})
 			}
 		}
@@ -673,7 +676,7 @@ func run(r *harness.Run) {
 		ab.WriteByte(']')
 		doText([]byte(sb.String()), obj)
 		doText([]byte(ab.String()), arr)
-		if c.ks == 3 || c.ord == 1 {
+		if (c.ks == 3 || c.ord == 1) && c.n < 60000 {
 			// nested: as a member value (an event's content.users), inside an array, and next to a second wide object
 			doText([]byte(`{"z":1,"content":{"users":`+sb.String()+`,"a":[`+ab.String()+`]},"a":0}`), nil)
 			doText([]byte(`[`+sb.String()+`,`+sb.String()+`]`), nil)
